@@ -406,6 +406,10 @@ def execute(case, stats, log):
             log.append([i, "restart", vs, [h["name"] if not opaque(v) else "?" for v, h in local]])
             continue
         before = describe(m.pool[var], with_value=False) if kind in ("inspect", "graph", "compute", "optimize") and var in m.pool else None
+        if kind == "build":
+            # equal inputs, not identical ones: first builds share equal inner chunk tuples (one object
+            # used for several axes), forced rebuilds and the fresh-interpreter rebuild use distinct objects
+            G.IDENTITY[0] = "fresh" if ev.get("force") else "shared"
         try:
             out = m.apply(ev)
         except Violation:
